@@ -38,6 +38,25 @@ impl<R> ReaderCursor<R> {
         self.reader.get_ref()
     }
 
+    /// Verification-only read-only fingerprint of the cursor state: for every index level
+    /// and then for the data cursor, (recorded offset, hash of the loaded block, in-block position).
+    /// The first element tells whether the index cursors are initialised.
+    #[cfg(grenad_verif)]
+    pub fn verif_fingerprint(&self) -> (bool, Vec<(u64, u64, Option<usize>)>) {
+        let mut out = Vec::new();
+        if let Some(inner) = self.index_block_cursor.inner.as_ref() {
+            for (offset, cursor) in inner {
+                let (hash, pos) = cursor.verif_state();
+                out.push((*offset, hash, pos));
+            }
+        }
+        if let Some(cursor) = self.current_cursor.as_ref() {
+            let (hash, pos) = cursor.verif_state();
+            out.push((u64::MAX, hash, pos));
+        }
+        (self.index_block_cursor.inner.is_some(), out)
+    }
+
     /// Resets the position of the cursor.
     ///
     /// Useful when you want to be able to call `move_on_next` or `move_on_prev` in a loop
